@@ -140,21 +140,25 @@ def gen_ro_sep(rng, cfg):
         obj = ['+', obj, t]
     # objective, possibly with a default set
     default_set = None
-    if rng.random() < 0.5:
-        default_set = gen.gen_set(rng, zs, fams)
-        c0 = {zn: [gen.nz2(rng, -1, 1) for _ in range(n)] for zn, n in zs.items()}
+    # 'free_w': the default set says nothing about the second random array, and one row that relies on the default set uses
+    # it: no robust solution exists, whether w was declared before or after the objective
+    free_w = 'w' in zs and rng.random() < cfg.get('p_free_w', 0.35)
+    if free_w or rng.random() < 0.5:
+        default_set = gen.gen_set(rng, {'z': zs['z']} if free_w else zs, fams)
+        c0 = {zn: [gen.nz2(rng, -1, 1) for _ in range(n)] for zn, n in zs.items() if not (free_w and zn == 'w')}
         e = obj
         for zn, a in c0.items():
             e = ['+', e, ['@', ['c', a], ['v', zn]]]
         # max min_z (sum x + c.z) = sum x - support(-c)
         expect['obj_const'] += -ref.support(default_set, {zn: [-v for v in a] for zn, a in c0.items()})
         s_obj = add({'op': 'obj', 'm': 'm', 'how': 'maxmin', 'e': e, 'blocks': default_set,
-                     'set': ref.set_constraints(default_set, zs)}, set(s_x) | set(s_z.values()), role='obj')
+                     'set': ref.set_constraints(default_set, zs)},
+                    set(s_x) | (set(s_z.values()) if not free_w else {s_z['z']}), role='obj')
     else:
         s_obj = add({'op': 'obj', 'm': 'm', 'how': 'max', 'e': obj}, set(s_x), role='obj')
 
     # joint rows: the K rows form ONE vector-valued robust constraint x + A z <= b with one set for all rows
-    joint = (not scalar_x) and rng.random() < cfg.get('p_joint_rows', 0.25)
+    joint = (not scalar_x) and not free_w and rng.random() < cfg.get('p_joint_rows', 0.25)
     if joint:
         own = default_set is None or rng.random() < 0.7
         blocks = gen.gen_set(rng, zs, fams) if own else default_set
@@ -178,12 +182,20 @@ def gen_ro_sep(rng, cfg):
     for k in range(0 if joint else K):
         a = _coef(rng, zs)
         cdeps = {s_x[k]} | set(s_z.values())
+        if free_w and k == 0:
+            # the row that makes the model unsolvable: it uses w and relies on the default set, which leaves w unrestricted
+            while not any(a['w']):
+                a = _coef(rng, zs)
+            expect['x'].append(0.0)
+            s_c = add({'op': 'cons', 'id': 'c0', 'e': _lin_forms(rng, xs[0], a, gen.r2(rng, 5, 20))}, cdeps, role='cons')
+            add({'op': 'st', 'm': 'm', 'ids': ['c0']}, [s_c, s_obj], role='st')
+            continue
         if 'w' in zs and rng.random() < 0.4:
             # the row involves z only: the second random array may be declared after this expression was built
             a = {'z': _coef(rng, {'z': zs['z']})['z'], 'w': [0.0] * zs['w']}
             cdeps = {s_x[k], s_z['z']}
         b = gen.r2(rng, 5, 20)
-        own = default_set is None or rng.random() < 0.7
+        own = default_set is None or free_w or rng.random() < 0.7
         blocks = gen.gen_set(rng, zs, fams) if own else default_set
         expect['x'].append(b - ref.support(blocks, a))
         a_used = {zn: v for zn, v in a.items() if any(v)}
@@ -240,8 +252,11 @@ def gen_ro_sep(rng, cfg):
         add({'op': 'st', 'm': 'm', 'ids': ['bu1', 'bu2']}, [steps[-2]['sid'], steps[-1]['sid']], late=True,
             role='bound')
     xnames = ['x%d' % k for k in range(K)] if scalar_x else ['x']
-    return {'family': 'ro-sep', 'model': 'm', 'cone': cone, 'ints': ints, 'zs': zs, 'steps': steps,
-            'expect': expect, 'xnames': xnames, 'pool': solver_pool(cone, ints), 'shared_z': shared}
+    out = {'family': 'ro-sep', 'model': 'm', 'cone': cone, 'ints': ints, 'zs': zs, 'steps': steps,
+           'expect': expect, 'xnames': xnames, 'pool': solver_pool(cone, ints), 'shared_z': shared}
+    if free_w:
+        out['expect_nosol'] = True
+    return out
 
 
 def gen_probset(rng, S):
@@ -1161,7 +1176,19 @@ def check_case(case, props):
              canon_ops(decl), exc=':'.join(r0.get('exc', [])))
         return {'violations': viols, 'stats': stats}
     out0 = r0['out']
-    if out0['sol'] != 'opt':
+    nosol = bool(decl.get('expect_nosol'))
+    if nosol:
+        # by construction no robust solution exists (a random variable is unrestricted in the set applied to a row that uses
+        # it): every build, in every order, has to say so
+        stats['l1_checks'] += 1
+        if out0['sol'] == 'opt':
+            viol('L1-status', 'canonical build reports the optimum %.9g although a random variable is unrestricted in the set '
+                 'applied to a row that uses it' % out0['obj'], canon_ops(decl))
+            return {'violations': viols, 'stats': stats}
+        if out0['sol'] == 'inconclusive':
+            inconc('engine_limit:%s' % out0.get('status'))
+            return {'violations': viols, 'stats': stats}
+    elif out0['sol'] != 'opt':
         inconc('canonical_not_optimal:%s:%s' % (case['canon_solver'], out0.get('status')))
         return {'violations': viols, 'stats': stats}
 
@@ -1171,7 +1198,7 @@ def check_case(case, props):
         if not close(out0['obj'], decl['expect']['opt'], tol * 10):
             viol('L1-objective', 'canonical build: optimum %.9g, closed form for the declared partitions/masks %.9g'
                  % (out0['obj'], decl['expect']['opt']), canon_ops(decl))
-    if fam.endswith('-sep'):
+    if fam.endswith('-sep') and not nosol:
         stats['l1_checks'] += 1
         exp_x = decl['expect']['x']
         exp_obj = decl['expect']['obj'] if 'obj' in decl['expect'] else sum(exp_x) + decl['expect']['obj_const']
@@ -1270,6 +1297,12 @@ def check_case(case, props):
                             continue
                         viol('L3-status', '%s(%s) after %d steps of schedule #%d: incremental %s vs from-scratch %s'
                              % (k, eng, len(done_sids), si, _brief(out), _brief(outs)), executed, sched=si)
+                        aborted = True
+                        break
+                    if out['sol'] == 'opt' and nosol and op.get('final'):
+                        viol('L2-status', '%s(%s) after %d steps of schedule #%d reports the optimum %.9g; no robust solution exists '
+                             '(a random variable is unrestricted in the set applied to a row that uses it)'
+                             % (k, eng, len(done_sids), si, out['obj']), executed, sched=si)
                         aborted = True
                         break
                     if out['sol'] == 'opt':
